@@ -1,10 +1,367 @@
 package main
 
-// FS is the in-memory file-system model (filled in by fs intrinsics).
+// In-memory file-system model (process-crash semantics: every completed call is durable).
+
+import (
+	"fmt"
+	"go/types"
+	"sort"
+	"strings"
+)
+
 type FS struct {
-	files map[string]*memFile
+	files     map[string]*memFile
+	mutations int
+	dirty     bool // a mutation happened that has not been followed by a crash-point hook yet
+	log       []string
 }
 
 type memFile struct {
-	data []value
+	data []*Term
+}
+
+type hostFile struct {
+	name   string
+	f      *memFile
+	pos    int
+	closed bool
+	flags  int64
+}
+
+func (e *Engine) fs() *FS {
+	if e.fsState == nil {
+		e.fsState = &FS{files: map[string]*memFile{}}
+	}
+	return e.fsState
+}
+
+func (fs *FS) mutate(what string) {
+	if fs.dirty && E.hookCheck {
+		E.inconclusive("filesystem mutation without a crash-point hook in between: " + fs.log[len(fs.log)-1] + " then " + what)
+	}
+	fs.mutations++
+	fs.dirty = true
+	fs.log = append(fs.log, what)
+}
+
+func hostFileOf(v value) *hostFile {
+	p, _ := v.(*value)
+	if p == nil {
+		goPanic("runtime error: invalid memory address or nil pointer dereference (nil *os.File)")
+	}
+	hf, ok := (*p).(*hostFile)
+	if !ok {
+		E.inconclusive("os.File that was not opened through the FS model")
+	}
+	return hf
+}
+
+func errNotExist(op, name string) value {
+	return mkError(op + " " + name + ": no such file or directory")
+}
+
+func ioEOF() value { return globalValue("io", "EOF") }
+
+func init() {
+	reg("os.MkdirAll", func(fr *frame, args []value) value { return nilError() })
+	reg("os.Mkdir", func(fr *frame, args []value) value { return nilError() })
+	reg("os.OpenFile", func(fr *frame, args []value) value {
+		name := mustConcStr(args[0])
+		flags := concInt(args[1], true)
+		fs := E.fs()
+		f, ok := fs.files[name]
+		if !ok {
+			if flags&0x40 == 0 { // O_CREATE
+				return tuple{(*value)(nil), errNotExist("open", name)}
+			}
+			f = &memFile{}
+			fs.files[name] = f
+			fs.mutate("create " + name)
+		}
+		if flags&0x200 != 0 && len(f.data) > 0 { // O_TRUNC
+			f.data = nil
+			fs.mutate("truncate " + name)
+		}
+		hf := &hostFile{name: name, f: f, flags: flags}
+		if flags&0x400 != 0 {
+			hf.pos = len(f.data)
+		}
+		cell := value(hf)
+		return tuple{&cell, nilError()}
+	})
+	reg("os.Open", func(fr *frame, args []value) value {
+		name := mustConcStr(args[0])
+		f, ok := E.fs().files[name]
+		if !ok {
+			return tuple{(*value)(nil), errNotExist("open", name)}
+		}
+		cell := value(&hostFile{name: name, f: f})
+		return tuple{&cell, nilError()}
+	})
+	reg("os.Create", func(fr *frame, args []value) value {
+		name := mustConcStr(args[0])
+		fs := E.fs()
+		f := &memFile{}
+		fs.files[name] = f
+		fs.mutate("create " + name)
+		cell := value(&hostFile{name: name, f: f, flags: 2})
+		return tuple{&cell, nilError()}
+	})
+	reg("os.Remove", func(fr *frame, args []value) value {
+		name := mustConcStr(args[0])
+		fs := E.fs()
+		if _, ok := fs.files[name]; !ok {
+			return errNotExist("remove", name)
+		}
+		delete(fs.files, name)
+		fs.mutate("remove " + name)
+		return nilError()
+	})
+	reg("os.Rename", func(fr *frame, args []value) value {
+		from, to := mustConcStr(args[0]), mustConcStr(args[1])
+		fs := E.fs()
+		f, ok := fs.files[from]
+		if !ok {
+			return errNotExist("rename", from)
+		}
+		delete(fs.files, from)
+		fs.files[to] = f
+		fs.mutate("rename " + from + " -> " + to)
+		return nilError()
+	})
+	reg("os.IsNotExist", func(fr *frame, args []value) value {
+		it := args[0].(iface)
+		if it.t == nil {
+			return False
+		}
+		if p, ok := it.v.(*value); ok && p != nil {
+			if st, ok := (*p).(structure); ok && len(st) == 1 {
+				if s, ok := st[0].(Str); ok {
+					cs, _ := s.concrete()
+					return ConstBool(strings.HasSuffix(cs, "no such file or directory"))
+				}
+			}
+		}
+		return False
+	})
+	reg("os.ReadFile", func(fr *frame, args []value) value {
+		name := mustConcStr(args[0])
+		f, ok := E.fs().files[name]
+		if !ok {
+			return tuple{[]value(nil), errNotExist("open", name)}
+		}
+		return tuple{termsToSlice(append([]*Term(nil), f.data...)), nilError()}
+	})
+	reg("io/ioutil.ReadFile", intrinsics["os.ReadFile"])
+	reg("(*os.File).Write", func(fr *frame, args []value) value {
+		hf := hostFileOf(args[0])
+		if hf.closed {
+			return tuple{mkI(0), mkError("write " + hf.name + ": file already closed")}
+		}
+		p := bytesToTerms(args[1])
+		if len(p) == 0 {
+			return tuple{mkI(0), nilError()}
+		}
+		for len(hf.f.data) < hf.pos {
+			hf.f.data = append(hf.f.data, byteConsts[0])
+		}
+		nd := append([]*Term(nil), hf.f.data[:hf.pos]...)
+		nd = append(nd, p...)
+		if hf.pos+len(p) < len(hf.f.data) {
+			nd = append(nd, hf.f.data[hf.pos+len(p):]...)
+		}
+		hf.f.data = nd
+		hf.pos += len(p)
+		E.fs().mutate(fmt.Sprintf("write %s %d bytes", hf.name, len(p)))
+		return tuple{mkI(len(p)), nilError()}
+	})
+	reg("(*os.File).WriteString", func(fr *frame, args []value) value {
+		return intrinsics["(*os.File).Write"](fr, []value{args[0], termsToSlice(args[1].(Str).b)})
+	})
+	reg("(*os.File).Read", func(fr *frame, args []value) value {
+		hf := hostFileOf(args[0])
+		if hf.closed {
+			return tuple{mkI(0), mkError("read " + hf.name + ": file already closed")}
+		}
+		p, _ := args[1].([]value)
+		if len(p) == 0 {
+			return tuple{mkI(0), nilError()}
+		}
+		n := len(hf.f.data) - hf.pos
+		if n <= 0 {
+			return tuple{mkI(0), ioEOF()}
+		}
+		if n > len(p) {
+			n = len(p)
+		}
+		for i := 0; i < n; i++ {
+			p[i] = hf.f.data[hf.pos+i]
+		}
+		hf.pos += n
+		return tuple{mkI(n), nilError()}
+	})
+	reg("(*os.File).Seek", func(fr *frame, args []value) value {
+		hf := hostFileOf(args[0])
+		off := concInt(args[1], true)
+		wh := concInt(args[2], true)
+		switch wh {
+		case 0:
+			hf.pos = int(off)
+		case 1:
+			hf.pos += int(off)
+		case 2:
+			hf.pos = len(hf.f.data) + int(off)
+		}
+		if hf.pos < 0 {
+			hf.pos = 0
+			return tuple{mkI(0), mkError("seek: invalid argument")}
+		}
+		return tuple{mkI(hf.pos), nilError()}
+	})
+	reg("(*os.File).Sync", func(fr *frame, args []value) value {
+		hostFileOf(args[0]) // fsync changes no state under process-crash semantics
+		return nilError()
+	})
+	reg("(*os.File).Close", func(fr *frame, args []value) value {
+		p, _ := args[0].(*value)
+		if p == nil {
+			return mkError("invalid argument")
+		}
+		hf := hostFileOf(args[0])
+		if hf.closed {
+			return mkError("close " + hf.name + ": file already closed")
+		}
+		hf.closed = true
+		return nilError()
+	})
+	reg("(*os.File).Name", func(fr *frame, args []value) value { return mkStr(hostFileOf(args[0]).name) })
+
+	// fmt over writers/readers
+	reg("fmt.Fprintf", func(fr *frame, args []value) value {
+		s := fmtSprintf(args[1].(Str), args[2])
+		return writeTo(fr, args[0].(iface), termsToSlice(s.b))
+	})
+	reg("fmt.Fprintln", func(fr *frame, args []value) value {
+		s := fmtSprint(args[1], true)
+		return writeTo(fr, args[0].(iface), termsToSlice(s.b))
+	})
+	reg("fmt.Fprint", func(fr *frame, args []value) value {
+		s := fmtSprint(args[1], false)
+		return writeTo(fr, args[0].(iface), termsToSlice(s.b))
+	})
+	reg("fmt.Fscanf", func(fr *frame, args []value) value {
+		rd := args[0].(iface)
+		format := mustConcStr(args[1])
+		ptrs, _ := args[2].([]value)
+		p, ok := rd.v.(*value)
+		if !ok || p == nil {
+			E.inconclusive("fmt.Fscanf on unsupported reader")
+		}
+		hf, ok := (*p).(*hostFile)
+		if !ok {
+			E.inconclusive("fmt.Fscanf on unsupported reader")
+		}
+		var bs []byte
+		for _, t := range hf.f.data[hf.pos:] {
+			if !t.IsConst() {
+				E.inconclusive("fmt.Fscanf on symbolic file content")
+			}
+			bs = append(bs, byte(t.C))
+		}
+		hf.pos = len(hf.f.data)
+		gos := make([]interface{}, len(ptrs))
+		ints := make([]int64, len(ptrs))
+		for i := range ptrs {
+			gos[i] = &ints[i]
+		}
+		n, err := fmt.Sscanf(string(bs), format, gos...)
+		for i := 0; i < n && i < len(ptrs); i++ {
+			it := ptrs[i].(iface)
+			et := it.t.Underlying().(*types.Pointer).Elem()
+			*(it.v.(*value)) = ConstBV(intWidth(et), uint64(ints[i]))
+		}
+		if err != nil {
+			return tuple{mkI(n), mkError(err.Error())}
+		}
+		return tuple{mkI(n), nilError()}
+	})
+
+	// crash points
+	verifFuncs["verifFsMutations"] = func(fr *frame, a []value) value { return mkI(E.fs().mutations) }
+	verifFuncs["verifFsHooked"] = func(fr *frame, a []value) value {
+		fs := E.fs()
+		fs.dirty = false
+		E.hookCheck = true
+		return nil
+	}
+	verifFuncs["verifFsUnhooked"] = func(fr *frame, a []value) value { return ConstBool(E.fs().dirty) }
+	verifFuncs["verifCrashHere"] = func(fr *frame, a []value) value {
+		// fork: the process dies right here (all other goroutines are frozen for good), or it continues
+		if E.crashed {
+			return False
+		}
+		E.crashPoints++
+		if E.choose(2) == 1 {
+			E.crashed = true
+			E.crashLabel = mustConcStr(a[0])
+			// recorded as a variable so that the native replay knows the crash point (1-based; absent = none)
+			v := E.fresh("crashpoint", BV(64))
+			E.addPC(Eq(v, mkI(E.crashPoints)))
+			return True
+		}
+		return False
+	}
+	verifFuncs["verifFreezeOthers"] = func(fr *frame, a []value) value {
+		// every goroutine except main stops forever; the caller (if not main) parks forever too
+		for _, g := range E.gs {
+			if !g.isMain && g != fr.g && g.state != gDone {
+				g.state = gFrozen
+				g.cases = nil
+				g.poll = nil
+			}
+		}
+		if !fr.g.isMain {
+			fr.g.state = gFrozen
+			fr.g.cases = nil
+			fr.g.poll = nil
+			E.yield(fr.g)
+		}
+		return nil
+	}
+	verifFuncs["verifTempDir"] = func(fr *frame, a []value) value { return mkStr("/spool") }
+	verifFuncs["verifSnapshotDir"] = func(fr *frame, a []value) value { return a[0] }
+	verifFuncs["verifFsDump"] = func(fr *frame, a []value) value {
+		if E.verbose {
+			var names []string
+			for n, f := range E.fs().files {
+				names = append(names, fmt.Sprintf("%s(%d)", n, len(f.data)))
+			}
+			sort.Strings(names)
+			fmt.Println("FS:", names)
+		}
+		return nil
+	}
+}
+
+// writeTo invokes w.Write(p) for an io.Writer interface value.
+func writeTo(fr *frame, w iface, p []value) value {
+	if w.t == nil {
+		goPanic("runtime error: invalid memory address or nil pointer dereference (nil io.Writer)")
+	}
+	if p0, ok := w.v.(*value); ok && p0 != nil {
+		if _, isFile := (*p0).(*hostFile); isFile {
+			return intrinsics["(*os.File).Write"](fr, []value{w.v, p})
+		}
+	}
+	// generic: look up Write in the method set
+	ms := E.prog.MethodSets.MethodSet(w.t)
+	for i := 0; i < ms.Len(); i++ {
+		sel := ms.At(i)
+		if sel.Obj().Name() == "Write" {
+			fn := E.prog.MethodValue(sel)
+			return callValue(fr, 0, fn, []value{w.v, p})
+		}
+	}
+	E.inconclusive("fmt.Fprintf: writer without Write method: " + w.t.String())
+	return nil
 }
